@@ -608,6 +608,20 @@ def _read_exact(stream: "SupportsRead[bytes]", size: int) -> bytes:
     return data
 
 
+def _wire_type_matches(wire_type: int, proto_type: str) -> bool:
+    """Whether a field of ``proto_type`` can arrive with ``wire_type``."""
+    if wire_type == WIRE_VARINT:
+        return proto_type in WIRE_VARINT_TYPES
+    if wire_type == WIRE_FIXED_32:
+        return proto_type in WIRE_FIXED_32_TYPES
+    if wire_type == WIRE_FIXED_64:
+        return proto_type in WIRE_FIXED_64_TYPES
+    if wire_type == WIRE_LEN_DELIM:
+        # length-delimited types, or a packed run of a repeated scalar
+        return proto_type in WIRE_LEN_DELIM_TYPES or proto_type in PACKED_TYPES
+    return False
+
+
 @dataclasses.dataclass(frozen=True)
 class ParsedField:
     number: int
@@ -1344,6 +1358,11 @@ class Message(ABC):
                 continue
 
             meta = proto_meta.meta_by_field_name[field_name]
+            if not _wire_type_matches(parsed.wire_type, meta.proto_type):
+                # The sender uses this number for a field of another type: keep
+                # the data as an unknown field rather than mis-decoding it.
+                self._unknown_fields += parsed.raw
+                continue
 
             value: Any
             if parsed.wire_type == WIRE_LEN_DELIM and meta.proto_type in PACKED_TYPES:
